@@ -82,6 +82,10 @@ class C20:
         for la, st, bs, ls in itertools.product([True, False], [True, False], subsets, subsets):
             cases.append({"kind": 5, "cfg": base_cfg(exe="build", nargs=3, store="ok", pre=True,
                                                      build={"error": False, "launch": la, "store": st, "build_sboms": bs, "launch_sboms": ls})})
+        # a launch.toml with several processes, slices and labels, one label key set twice
+        for st in (True, False):
+            cases.append({"kind": 5, "cfg": base_cfg(exe="build", nargs=3, store="ok", pre=True,
+                                                     build={"error": False, "launch": "rich", "store": st, "build_sboms": [], "launch_sboms": ["cdx"]})})
         for det in ("pass_plan", "pass", "pass_plan_multi", "pass_plan_multi"):
             cases.append({"kind": 5, "cfg": base_cfg(exe="detect", nargs=2, det=det, pre=True)})
         return cases
